@@ -282,6 +282,10 @@ pub fn record(pool_path: &str, w: &mut dyn Write, seed: u64, n_events: usize) {
             if cw {
                 ms = ms.iter().map(|m| variant(m, "reversed")).collect();
             }
+            // every input led by an EMPTY polygon member (no point, no winding): the union is the same
+            if k % 4 == 1 {
+                ms = ms.iter().map(|m| MultiPolygon::new(std::iter::once(Polygon::new(LineString::new(vec![]), vec![])).chain(m.0.iter().cloned()).collect())).collect();
+            }
             let mms: Vec<MultiPolygon<f64>> = match mi {
                 Some(m) => ms.iter().map(|x| as_mp(&m.on(&G::MultiPolygon(x.clone()))).unwrap()).collect(),
                 None => ms.clone(),
